@@ -514,6 +514,52 @@ def oracle(ctx):
             continue
         check_svd(ctx, info, A, u.detach(), s_.detach(), vh.detach(), k, mode == "lowest", "svd:matrix-free:%s" % method, 1e-5 if method == "davidson" else 1e-8)
     known_svd_rank_deficient(ctx)
+    operator_reuse_probe(ctx)
+
+
+def operator_reuse_probe(ctx):
+    """ONE operator object over an optimisation loop: symeig, backward, in-place update of the leaf the operator was built from,
+    symeig again on the same object - every call returns the pairs of the operator's CURRENT matrix (round-5 seed C05/13: the
+    parameter-substitution context of LinearOperator re-installed the substituted copies on exit, so the object kept the matrix of
+    its first call)"""
+    import xitorch as xt
+    from xitorch.linalg import symeig
+    MF = mf_class()
+    g = torch.Generator().manual_seed(ctx.seed + 31)
+    for method in ("custom_exacteig", "davidson", "exacteig"):
+        for kind in ("dense", "mf"):
+            for useM in (False, True):
+                n, neig = 5, 2
+                mat = rsym(g, n).requires_grad_()
+                Mm = rspd(g, n).requires_grad_() if useM else None
+                A = xt.LinearOperator.m(mat, is_hermitian=True) if kind == "dense" else MF(mat)
+                M = xt.LinearOperator.m(Mm, is_hermitian=True) if useM else None
+                info = {"fn": "symeig", "method": method, "operator": kind, "M": useM, "n": n, "neig": neig,
+                        "sequence": "symeig; backward; in-place update of the leaf; symeig on the same object"}
+                for step in range(3):
+                    ctx.count(("operator-reuse", method, kind, useM, step), nontrivial=step > 0)
+                    try:
+                        with warnings.catch_warnings():
+                            warnings.simplefilter("ignore")
+                            e, X = symeig(A, neig, "lowest", M, method=method, **({"min_eps": 1e-10} if method == "davidson" else {}))
+                    except Exception as ex:
+                        if "positive-definite" in repr(ex):
+                            ctx.stat("davidson_forward_F27")
+                            break
+                        ctx.fail("oracle", "symeig:operator-reuse:%s:exception" % method, dict(info, step=step), repr(ex)[:300], "pairs")
+                        break
+                    check_pairs(ctx, dict(info, step=step), mat.detach().clone(), Mm.detach().clone() if useM else None, e.detach(), X.detach(), neig, True,
+                                "symeig:operator-reuse:%s" % method)
+                    (e.sum() + (X * X).sum()).backward()
+                    with torch.no_grad():
+                        mat.add_(0.3 * herm_(torch.randn(n, n, dtype=DT, generator=g)))
+                        if useM:
+                            Mm.add_(0.05 * torch.eye(n, dtype=DT))
+                    mat.grad = None
+
+
+def herm_(t):
+    return (t + t.transpose(-2, -1)) * 0.5
 
 
 def check_svd(ctx, info, A, u, s, vh, k, lowest, key, tol, relative=False):
